@@ -32,7 +32,8 @@ func hdr(name, val string) gatewayv1beta1.HTTPHeaderMatch {
 
 func alphaSteps(thorough bool) []v1alpha1.CanaryStep {
 	weights := []*int32{nil, utilpointer.Int32(20)}
-	replicas := []*intstr.IntOrString{nil, isp(intstr.FromInt(3)), isp(intstr.FromString("50%"))}
+	// 20 and "20%" collide on purpose with the weight 20 (a replicas value that merely LOOKS derived from the weight)
+	replicas := []*intstr.IntOrString{nil, isp(intstr.FromInt(3)), isp(intstr.FromString("50%")), isp(intstr.FromInt(20)), isp(intstr.FromString("20%"))}
 	pauses := []*int32{nil, utilpointer.Int32(5)}
 	matches := [][]v1alpha1.HttpRouteMatch{nil, {{Headers: []gatewayv1beta1.HTTPHeaderMatch{hdr("user", "demo")}}}}
 	mods := []*gatewayv1beta1.HTTPHeaderFilter{nil, {Set: []gatewayv1beta1.HTTPHeader{{Name: "x-env", Value: "canary"}}}}
@@ -610,7 +611,7 @@ func Run(r *lib.Report) {
 
 func betaSteps(th bool) []v1beta1.CanaryStep {
 	traffic := []*string{nil, utilpointer.String("20%")}
-	replicas := []*intstr.IntOrString{isp(intstr.FromInt(3)), isp(intstr.FromString("50%"))}
+	replicas := []*intstr.IntOrString{isp(intstr.FromInt(3)), isp(intstr.FromString("50%")), isp(intstr.FromInt(20)), isp(intstr.FromString("20%"))}
 	pauses := []*int32{nil, utilpointer.Int32(5)}
 	matches := [][]v1beta1.HttpRouteMatch{nil, {{Headers: []gatewayv1beta1.HTTPHeaderMatch{hdr("user", "demo")}}}}
 	mods := []*gatewayv1beta1.HTTPHeaderFilter{nil, {Set: []gatewayv1beta1.HTTPHeader{{Name: "x-env", Value: "canary"}}}}
